@@ -8,6 +8,8 @@
 //
 //	newp                 create a plain Promise
 //	set p e / aset p e   Promise p .SetResult(id+1, e), synchronously / from a new goroutine
+//	bset p k             k SetResult calls on Promise p released together by a spin barrier
+//	brace p k            one SetResult and k Await(ctx) calls on Promise p released together
 //	gate p               hold the winner of Promise p at the `yield-setresult` point (after the swap,
 //	                     before the fields are written and the channel is closed) until `open p`
 //	open p               open that gate
@@ -30,9 +32,11 @@ import (
 	"errors"
 	"fmt"
 	"math/rand"
+	"runtime"
 	"strconv"
 	"strings"
 	"sync"
+	"sync/atomic"
 	"syscall"
 	"time"
 
@@ -88,6 +92,34 @@ func recoverRet(log *hist.Log, id int) {
 	if r := recover(); r != nil {
 		log.Ret(id, "panic")
 	}
+}
+
+// spinBarrier releases k goroutines within a few nanoseconds of each other (a channel close wakes
+// them one after the other, microseconds apart, which never overlaps two-instruction windows).
+type spinBarrier struct {
+	k     int32
+	ready atomic.Int32
+	open  atomic.Bool
+}
+
+func newBarrier(k int) *spinBarrier { return &spinBarrier{k: int32(k)} }
+
+func (b *spinBarrier) wait() {
+	b.ready.Add(1)
+	deadline := time.Now().Add(50 * time.Millisecond)
+	for i := 0; !b.open.Load(); i++ {
+		if i%1024 == 1023 && time.Now().After(deadline) {
+			return
+		}
+	}
+}
+
+func (b *spinBarrier) release() {
+	deadline := time.Now().Add(20 * time.Millisecond)
+	for b.ready.Load() < b.k && time.Now().Before(deadline) {
+		runtime.Gosched()
+	}
+	b.open.Store(true)
 }
 
 func cpuTime() time.Duration {
@@ -146,6 +178,56 @@ func exec(script []string, opt comp.Options) comp.Result {
 		go func() { defer wg.Done(); f() }()
 	}
 	nRepl := 0
+	startSet := func(p int, en string, e error, async bool, b *spinBarrier) {
+		id := inv("set %d %d %s", p, nid+1, en)
+		pr := proms[p]
+		if _, gated := gates[p]; gated && !gateOpen[p] {
+			async = true // the director must never park at a gate itself
+		}
+		run(async, func() {
+			defer recoverRet(log, id)
+			if b != nil {
+				b.wait()
+			}
+			r := pr.SetResult(id+1, e)
+			log.Ret(id, "set %v", r)
+		})
+	}
+	startAwait := func(cont bool, p int, kind string, b *spinBarrier) {
+		var pr promise.PromiseLike[int]
+		c := &awaitCall{kind: kind, cont: cont}
+		if cont {
+			pr = ctr
+			c.id = inv("cawait %s", kind)
+		} else {
+			pr = proms[p]
+			c.id = inv("await %d %s", p, kind)
+		}
+		ctx, cancel := context.WithCancel(context.Background())
+		c.cancel = cancel
+		c.errCh = make(chan error, 1)
+		c.cancelCh = make(chan struct{}, 1)
+		awaits = append(awaits, c)
+		wg.Add(1)
+		go func() {
+			defer wg.Done()
+			defer recoverRet(log, c.id)
+			if b != nil {
+				b.wait()
+			}
+			var v int
+			var err error
+			switch kind {
+			case "ctx":
+				v, err = pr.Await(ctx)
+			case "errch":
+				v, err = pr.AwaitWithErrCh(ctx, c.errCh)
+			default:
+				v, err = pr.AwaitWithCancelCh(ctx, c.cancelCh)
+			}
+			log.Ret(c.id, "await %d %s", v, errName(err))
+		}()
+	}
 
 	for _, step := range script {
 		f := strings.Fields(step)
@@ -165,13 +247,36 @@ func exec(script []string, opt comp.Options) comp.Result {
 			if !ok || !ok2 {
 				continue
 			}
-			id := inv("set %d %d %s", p, nid+1, f[2])
-			pr := proms[p]
-			run(f[0] == "aset", func() {
-				defer recoverRet(log, id)
-				r := pr.SetResult(id+1, e)
-				log.Ret(id, "set %v", r)
-			})
+			startSet(p, f[2], e, f[0] == "aset", nil)
+		case "bset", "brace":
+			// bset p k: k SetResult calls on promise p released together by a spin barrier;
+			// brace p k: one SetResult and k Await(ctx) calls released together
+			if len(f) < 3 {
+				continue
+			}
+			p, ok := promIdx(f[1])
+			k, err := strconv.Atoi(f[2])
+			if !ok || err != nil || k < 1 || k > 4 {
+				continue
+			}
+			if f[0] == "bset" {
+				b := newBarrier(k)
+				for j := 0; j < k; j++ {
+					en := errs[(j+nid)%len(errs)]
+					e, _ := errOf(en)
+					startSet(p, en, e, true, b)
+				}
+				b.release()
+			} else {
+				b := newBarrier(k + 1)
+				for j := 0; j < k; j++ {
+					startAwait(false, p, "ctx", b)
+				}
+				en := errs[nid%len(errs)]
+				e, _ := errOf(en)
+				startSet(p, en, e, true, b)
+				b.release()
+			}
 		case "gate":
 			if len(f) < 2 {
 				continue
@@ -200,61 +305,21 @@ func exec(script []string, opt comp.Options) comp.Result {
 				gateOpen[p] = true
 			}
 		case "await", "cawait":
-			var kind string
-			var pr promise.PromiseLike[int]
-			c := &awaitCall{}
 			if f[0] == "await" {
 				if len(f) < 3 {
 					continue
 				}
 				p, ok := promIdx(f[1])
-				if !ok {
+				if !ok || (f[2] != "ctx" && f[2] != "errch" && f[2] != "cancelch") {
 					continue
 				}
-				kind = f[2]
-				pr = proms[p]
-				if kind != "ctx" && kind != "errch" && kind != "cancelch" {
-					continue
-				}
-				c.id = inv("await %d %s", p, kind)
+				startAwait(false, p, f[2], nil)
 			} else {
-				if len(f) < 2 {
+				if len(f) < 2 || (f[1] != "ctx" && f[1] != "errch" && f[1] != "cancelch") {
 					continue
 				}
-				kind = f[1]
-				pr = ctr
-				c.cont = true
-				if kind != "ctx" && kind != "errch" && kind != "cancelch" {
-					continue
-				}
-				c.id = inv("cawait %s", kind)
+				startAwait(true, 0, f[1], nil)
 			}
-			c.kind = kind
-			ctx, cancel := context.WithCancel(context.Background())
-			c.cancel = cancel
-			c.errCh = make(chan error, 1)
-			c.cancelCh = make(chan struct{}, 1)
-			awaits = append(awaits, c)
-			wg.Add(1)
-			go func() {
-				defer wg.Done()
-				defer func() {
-					if r := recover(); r != nil {
-						log.Ret(c.id, "panic")
-					}
-				}()
-				var v int
-				var err error
-				switch kind {
-				case "ctx":
-					v, err = pr.Await(ctx)
-				case "errch":
-					v, err = pr.AwaitWithErrCh(ctx, c.errCh)
-				default:
-					v, err = pr.AwaitWithCancelCh(ctx, c.cancelCh)
-				}
-				log.Ret(c.id, "await %d %s", v, errName(err))
-			}()
 		case "cancel":
 			if len(f) < 2 {
 				continue
@@ -460,9 +525,16 @@ func gen(rng *rand.Rand, tier string) []string {
 		}
 		r := rng.Intn(100)
 		switch {
-		case r < 8 && np < maxP:
+		case r < 12 && np < maxP && rng.Intn(2) == 0:
 			out = append(out, "newp")
 			np++
+		case r < 5:
+			out = append(out, fmt.Sprintf("bset %d %d", rng.Intn(np), 2+rng.Intn(2)), "settle")
+		case r < 8 && na+2 <= maxA:
+			out = append(out, fmt.Sprintf("brace %d 2", rng.Intn(np)), "settle")
+			cont = append(cont, false, false)
+			akind = append(akind, "", "")
+			na += 2
 		case r < 24:
 			out = append(out, fmt.Sprintf("%s %d %s", sync("set"), rng.Intn(np), e()))
 		case r < 28:
@@ -565,6 +637,8 @@ func init() {
 			{"cawait errch", "cawait cancelch", "cawait errch", "settle", "fire 0 close", "fire 1 send nil", "fire 2 send deadline", "quiesce"},
 			// plain awaiters: every way to return
 			{"newp", "await 0 ctx", "await 0 errch", "await 0 errch", "await 0 cancelch", "await 0 cancelch", "await 0 ctx", "settle", "quiesce", "cancel 0", "fire 1 close", "fire 2 send nil", "fire 3 close", "fire 4 send nil", "quiesce", "set 0 canceled", "set 0 nil", "quiesce"},
+			// simultaneous setters; setter racing awaiters
+			{"newp", "bset 0 4", "settle", "await 0 ctx", "quiesce", "newp", "brace 1 3", "quiesce"},
 			// SetPromise with the same promise does not wake anybody; replaced by a resolved one
 			{"newp", "csetp 0", "cawait ctx", "settle", "csetp 0", "quiesce", "cres e1", "quiesce"},
 		},
